@@ -11,7 +11,7 @@ EXPLANATION = (
     "Decoder discipline over the call graph rooted at the 11 DecodeBeatmap::parse_* methods and From<BeatmapState>: "
     "every primitive number parse is either rosu_map's bounded ParseNumber or is compared against an upper and a lower "
     "bound with an error edge before any other use (R1); the six difficulty fields of the produced Beatmap and the "
-    "beat length / slider velocity / bpm multiplier / scroll speed of control points are results of clamp (R2); objects "
+    "beat length / slider velocity / bpm multiplier / scroll speed of control points are results of clamp, and every clamp fed (directly or one call down, private helpers inlined) by the deliberately NaN-tolerant beat-length parse lies behind a fact that excludes NaN for its operand — a TRUE ordered comparison, is_nan() false — because clamp hands NaN through (R2); objects "
     "and sounds are sorted with one TandemSorter built from total_cmp on start_time and every pushed object is paired "
     "with exactly one pushed sound (R3); control point vectors are mutated only through the binary-search ControlPoint::add "
     "(R4); no explicit panic API (unwrap/expect/panic!/assert!/unreachable!) in the decoder's call graph (R5); "
@@ -142,7 +142,7 @@ def run(ctx):
                     (t['func'].get('trait') or '').endswith('ParseNumber'):
                 bounded += 1
     ctx.ok('C06-R1', 'scan', '%d functions in the decoder call graph; %d raw primitive parse(s), %d bounded rosu_map ParseNumber call(s)' % (len(dec_fns), len(raws), bounded))
-    ctx.floor('C06-R1', bounded, 19, 'bounded ParseNumber call sites')
+    ctx.floor('C06-R1', bounded, 12, 'bounded ParseNumber call sites')
     ctx.floor('C06-R1', len(raws), 1, 'raw parse sites (the NaN-tolerant beat length)')
     # ---- R2
     rv = prov.prov_of(frm).return_value()
@@ -164,6 +164,8 @@ def run(ctx):
             continue
         ctx.saw(new)
         rvn = prov.prov_of(new).return_value()
+        # a clamp moved into a private helper of the same type (`Self::clamp_beat_len(x)`) is read through
+        rvn = prov.inline_all(F, rvn, depth=2, _seen=(new.path,), only=lambda f_: not f_.get('trait') and (f_.get('impl_adt') or '') == adt)
         for fld in fields:
             v = prov.project_field(rvn, fld)
             has_clamp = any(x[0] == 'call' and x[1].get('name') == 'clamp' for x in prov.walk(v, limit=200))
@@ -176,15 +178,24 @@ def run(ctx):
     # scroll speed written by the decoder
     import fieldidx
     ss = [a for a in fieldidx.accesses(F, 'model::control_point::effect::EffectPoint', 'scroll_speed')
-          if a['kind'] == 'assign' and a['fn'].path in reach_paths and a['fn'].impl_trait not in ('std::default::Default',)]
+          if a['kind'] in ('assign', 'agg-init') and a['fn'].path in reach_paths and a['fn'].impl_trait not in ('std::default::Default',)]
     for a in ss:
         fn = a['fn']
         s = a['stmt']
-        v = prov.prov_of(fn).rvalue(s['rv'], a['bb'], fn.blocks[a['bb']]['s'].index(s))
+        si_ = fn.blocks[a['bb']]['s'].index(s)
+        if a['kind'] == 'agg-init':
+            # a constructor of the effect point reached from the decoder (`EffectPoint::with_speed_multiplier(..)`): the value put into the literal
+            rv_ = s['rv']
+            v = prov.prov_of(fn).operand(rv_['ops'][rv_['fields'].index('scroll_speed')], a['bb'], si_)
+            if prov.const_val(prov.strip(v)) is not None:
+                continue                        # a constant default
+        else:
+            v = prov.prov_of(fn).rvalue(s['rv'], a['bb'], si_)
         n2 += 1
         ctx.require(prov.strip(v)[0] == 'call' and prov.strip(v)[1].get('name') == 'clamp', 'C06-R2', 'scroll_speed:' + fn.path,
                     'decoder writes scroll_speed = clamp(..)', fn.where(a['line']), bad='%s writes scroll_speed = `%s` without clamp' % (fn.path, prov.show(v, maxdepth=3)))
     ctx.floor('C06-R2', n2, 10, 'clamped fields')
+    r2_nan(ctx, F, dec_fns)
     # ---- R3
     # the sort may sit in a local helper that From<BeatmapState> calls with the state or with its two lists: read through it
     import inline
@@ -343,3 +354,105 @@ def clamp_field(ctx, F, frm, fld, v):
     else:
         ctx.ok('C06-R2', key, 'Beatmap.%s is handed through; every write of Difficulty.%s stores clamp(.., %s)' % (fld, g, sorted(wb)), frm.where())
         ctx.assumed('C06-R2', key + ':default', 'the default of rosu_map Difficulty.%s lies inside %s (dependency value, not read here)' % (g, sorted(wb)), frm.where())
+
+
+# ---- R2 (NaN clause): clamp() hands a NaN through unchanged.  The beat length of an inherited timing point is parsed NaN-tolerantly on purpose, so
+# every clamp fed (directly or one call down) by that parse must sit behind something that excludes NaN for its operand
+def _contains(v, pred, limit=400):
+    return any(pred(x) for x in prov.walk(v, limit=limit))
+
+
+def _excludes_nan(fn, bb, pred):
+    """a fact known on entry to bb that cannot hold for NaN: a TRUE ordered comparison of the source with a constant, is_nan() == false,
+    is_finite() == true (the negation of `x >= 0.0` does hold for NaN and proves nothing)"""
+    import arms
+    for c, lab in arms.bool_facts(fn, bb):
+        c = prov.strip(c, names={'likely', 'unlikely'})
+        if c[0] == 'binop' and c[1] in ('Lt', 'Le', 'Gt', 'Ge', 'Eq') and lab == 'true':
+            if (_contains(c[2], pred, 60) and not _contains(c[3], pred, 60)) or (_contains(c[3], pred, 60) and not _contains(c[2], pred, 60)):
+                return True
+        if c[0] == 'call' and c[1].get('name') in ('is_nan', 'is_finite') and c[2] and _contains(c[2][0], pred, 60):
+            if (c[1]['name'] == 'is_nan' and lab == 'false') or (c[1]['name'] == 'is_finite' and lab == 'true'):
+                return True
+    return False
+
+
+def nan_free(fn, op, bb, idx, pred, depth=0):
+    """the operand cannot carry the NaN of the source `pred` when used in block bb: it does not depend on it, or the use / every
+    definition that depends on it lies behind a NaN-excluding fact"""
+    P = prov.prov_of(fn)
+    if not isinstance(op, dict) or op.get('k') not in ('copy', 'move'):
+        return True
+    if not _contains(P.operand(op, bb, idx), pred):
+        return True
+    if _excludes_nan(fn, bb, pred):
+        return True
+    if depth > 8 or 'proj' in op['p'] and any(e != '*' for e in op['p']['proj']):
+        return False
+    defs = P.reaching(op['p']['l'], bb, idx)
+    if not defs:
+        return False
+    for d in defs:
+        if d.kind == 'param':
+            return False
+        if not _contains(P.def_value(d), pred):
+            continue
+        if _excludes_nan(fn, d.bb, pred):
+            continue
+        if d.kind == 'assign' and d.data['rv']['k'] == 'use' and nan_free(fn, d.data['rv']['op'], d.bb, d.idx, pred, depth + 1):
+            continue
+        if d.kind == 'assign' and d.data['rv']['k'] in ('binop', 'unop', 'cast'):
+            rv_ = d.data['rv']
+            ops_ = [rv_.get(k_) for k_ in ('a', 'b', 'op', 'operand', 'o') if isinstance(rv_.get(k_), dict) and 'k' in rv_.get(k_)]
+            if ops_ and all(nan_free(fn, o_, d.bb, d.idx, pred, depth + 1) for o_ in ops_):
+                continue
+        if d.kind == 'call' and d.data.get('args') and d.data['func'].get('name') in ('from', 'into', 'abs', 'neg', 'unwrap_or', 'unwrap_or_default'):
+            if all(nan_free(fn, o_, d.bb, len(fn.blocks[d.bb]['s']), pred, depth + 1) for o_ in d.data['args']):
+                continue
+        return False
+    return True
+
+
+def r2_nan(ctx, F, dec_fns):
+    import inline
+    # judged on the bodies with private helpers inlined: the tolerant parse may live in a helper that hands the number back (`parse_beat_len(s)?`)
+    views = []
+    seen_views = set()
+    for fn in dec_fns:
+        v = inline.inlined(F, fn, depth=2)
+        if v is not fn and id(v) not in seen_views:
+            seen_views.add(id(v))
+            views.append(v)
+    raws = [(fn, bi, t, ty) for fn, bi, t, ty in raw_parses(F, list(dec_fns) + views) if 'f64' in str(ty) or 'f32' in str(ty)]
+    nclamp = 0
+    marked = {}           # (callee path, param index) -> where it was handed a NaN-tolerant value
+    for g, pb, pt, ty in raws:
+        pred = lambda x, g=g, pb=pb: x[0] == 'call' and len(x) > 3 and x[3] == (g.path, pb)
+        for bi, t in g.calls():
+            n_ = len(g.blocks[bi]['s'])
+            f = t['func']
+            if f.get('name') == 'clamp' and f.get('krate') in ('core', 'std') and t['args']:
+                if _contains(prov.prov_of(g).call_args(bi)[0], pred):
+                    nclamp += 1
+                    ctx.require(nan_free(g, t['args'][0], bi, n_, pred), 'C06-R2', 'nan:%s:%s' % (g.path.split('::')[-1], t.get('ln') and 'clamp'), '%s: the clamp operand fed by the NaN-tolerant parse lies behind a NaN-excluding comparison' % g.path,
+                                g.where(t.get('ln')), bad='%s: a value of the NaN-tolerant number parse reaches clamp() at line %s without a comparison that excludes NaN (clamp returns NaN for NaN): '
+                                'a non-finite number is stored in the decoded map' % (g.path, t.get('ln')))
+            elif f.get('local') and F.fn(f.get('path') or '') is not None:
+                for i, a in enumerate(t['args']):
+                    if a.get('k') in ('copy', 'move') and not nan_free(g, a, bi, n_, pred):
+                        marked.setdefault((f['path'], i + 1), '%s line %s' % (g.path.split('::')[-1], t.get('ln')))
+    for (hp, k), origin in sorted(marked.items()):
+        h0 = F.fn(hp)
+        h = inline.inlined(F, h0, depth=2)
+        pred = lambda x, k=k: x == ('param', k)
+        for bi, t in h.calls():
+            f = t['func']
+            if f.get('name') == 'clamp' and f.get('krate') in ('core', 'std') and t['args'] and _contains(prov.prov_of(h).call_args(bi)[0], pred):
+                nclamp += 1
+                ctx.require(nan_free(h, t['args'][0], bi, len(h.blocks[bi]['s']), pred), 'C06-R2', 'nan:%s:param%d' % (h0.path.split('::')[-2] + '::' + h0.name, k),
+                            '%s: parameter %d may be NaN (from %s); the clamp it feeds lies behind a comparison that excludes NaN' % (h0.path, k, origin), h0.where(t.get('ln')),
+                            bad='%s: parameter %d can be NaN (handed over unguarded in %s) and reaches clamp() at line %s without a TRUE ordered comparison / is_nan test in front of it '
+                                '(clamp returns NaN for NaN; `!(x >= 0.0)` also holds for NaN): the decoded map stores a non-finite number' % (h0.path, k, origin, t.get('ln')))
+    ctx.ok('C06-R2', 'nan:scan', '%d NaN-tolerant float parse(s); %d parameter(s) of local functions may receive NaN (%s); %d clamp(s) fed by them checked' % (
+        len(raws), len(marked), ', '.join('%s#%d' % (p.split('::')[-2] + '::' + p.split('::')[-1], k) for p, k in sorted(marked)), nclamp))
+    ctx.floor('C06-R2', nclamp, 1, 'clamps fed by the NaN-tolerant parse')
